@@ -374,7 +374,7 @@ func (g *Gen) HistoryIO() []E {
 		case 2: // missing file
 			evs = append(evs, E{"op": "Import", "c": names[1], "path": "nope.json"})
 		case 3: // ill-formed file
-			evs = append(evs, E{"op": "PutFile", "path": "bad.json", "content": []interface{}{"bad", g.r.Intn(8)}})
+			evs = append(evs, E{"op": "PutFile", "path": "bad.json", "content": []interface{}{"bad", g.r.Intn(len(badFiles))}})
 			evs = append(evs, E{"op": "Import", "c": names[1], "path": "bad.json"})
 		case 4: // a file with an invalid _id
 			d1 := ObjSet(g.jsonTypedDoc(AStr(g.ids[1])), "x", ANum(g.smallN[0], "f"))
@@ -697,7 +697,6 @@ func (g *Gen) HistoryRetype() []E {
 	}
 	return evs
 }
-
 
 // ---------------------------------------------------------------- _expiresAt is only data (C15)
 
